@@ -147,6 +147,27 @@ def index_inst(pointee, kind, idx, tier):
                 replay=replay_spec('index', pointee, kind, idx), note='(%s*)[%s(%s)]' % (pointee, kind, idx))
 
 
+def adversarial_rhs_inst(form, pointee, idx, tier):
+    """the right operand lives in sandbox memory (tainted_volatile<idx>) and may be rewritten between any two reads
+    (goto-instrument --nondet-volatile): whatever is read, the produced address is inside p's sandbox, or the call aborts"""
+    it = binop_inst('add', pointee, 'tainted_volatile', idx, tier) if form == 'add' else index_inst(pointee, 'tainted_volatile', idx, tier)
+    TT = tstruct(pointee)
+    P = '((uintptr_t)((const struct %s *)$this)->data)' % TT
+    res = '((uintptr_t)$ret.data)' if form == 'add' else '((uintptr_t)$ret)'
+    it.name = it.name + '_adversarial'
+    it.contract = [c for c in it.contract if c[0] in ('wf', 'ptr_inv', 'nonnull_pre')] + [
+        ('operand_cell', '__CPROVER_requires(__CPROVER_r_ok($0, sizeof(*$0)))'),
+        ('inside_the_sandbox_of_p_or_aborts', '__CPROVER_ensures(%s != 0 && V_IN_MI(V_WHICH(%s), MI(%s)))' % (P, P, res)),
+        ('frame', '__CPROVER_assigns()')]
+    it.harness = it.harness.replace('g_noabort = in_noabort;', 'g_noabort = 0;')
+    it.nondet_volatile = True
+    it.opts = dict(it.opts or {}, amp_star=True, volatile_read_check=True)
+    it.replay = None
+    it.solvers = ('minisat', 'z3')
+    it.note = 'right operand in sandbox memory, adversarial reads: the value that passed the range check is the value that is added'
+    return it
+
+
 def plus_leaf(pointee, sign, kind, idx):
     """operator+/- as a contract leaf for the forms defined through it: only the clauses that are proved for it"""
     nexp = n_expr(kind, idx)
@@ -222,6 +243,8 @@ def units(tier):
         insts.append(compound_inst('sub', 'long', 'plain', 'unsigned int', tier))
         for form in ['preinc', 'predec', 'postinc', 'postdec']:
             insts.append(incdec_inst(form, 'long', tier))
+        insts.append(adversarial_rhs_inst('add', 'long', 'int', tier))
+        insts.append(adversarial_rhs_inst('index', 'long', 'unsigned long', tier))
     else:
         for pointee in POINTEES:
             for idx in INDEX_TYPES:
@@ -238,6 +261,10 @@ def units(tier):
                 insts.append(compound_inst('sub', pointee, 'plain', idx, tier))
             for form in ['preinc', 'predec', 'postinc', 'postdec']:
                 insts.append(incdec_inst(form, pointee, tier))
+        for form in ['add', 'index']:
+            for idx in ['int', 'unsigned long', 'short', 'unsigned char']:
+                insts.append(adversarial_rhs_inst(form, 'long', idx, tier))
+            insts.append(adversarial_rhs_inst(form, 'char', 'long', tier))
     # split into units of bounded size (one clang dump each)
     out = []
     for i in range(0, len(insts), 120):
@@ -250,8 +277,8 @@ def units(tier):
 
 ASSUMPTIONS = [
     'A_backend for the verification backend vsbx (DESIGN.md 4.1): regions live in [4096, 2^47), at most 4 GiB, disjoint; impl_is_in_same_sandbox(a,b) == (which(a)==which(b)) (its body is verified against this contract in the backend unit of C03)',
-    'dynamic_check is a contract leaf: requires(g_noabort ==> check) ensures(check); abort()/throw do not return',
-    'right operands held in sandbox memory (tainted_volatile) are stable for the duration of one call',
+    'dynamic_check is a contract leaf in the operator instances: requires(g_noabort ==> check) ensures(check); its body is proved against that contract by the dynamic_check units of this check (default and NDEBUG configuration); what stays assumed is that abort()/throw do not return',
+    'exact-result clauses for a right operand held in sandbox memory (tainted_volatile): the operand cell is stable for the duration of the one call; the safety clause - the produced address is inside the sandbox of p, or the call aborts - is proved WITHOUT that assumption by the *_adversarial instances (goto-instrument --nondet-volatile: every read of the cell returns a fresh value)',
 ]
 TRUSTED = ['guest ABI table of vsbx used as the spec stride (props/common.py GUEST_SIZE), independent of the headers']
 
